@@ -26,6 +26,11 @@ SCENARIOS = [
 
 def _child(drv, call, barrier, q, idx):
     try:
+        # os.fork() does not run multiprocessing's after-fork handlers: without them the child
+        # would talk to the Manager over the PARENT's connection (replies get mixed up, and a
+        # killed child leaves the parent waiting for an answer that was already consumed)
+        import multiprocessing.util
+        multiprocessing.util._run_after_forkers()
         barrier.wait(20)
         r = drv.call(call)
     except BaseException as e:  # noqa
@@ -125,9 +130,37 @@ def run(tier, seed):
     base = os.path.join(tlc.scratch_root(), "mpreal.%d" % os.getpid())
     shutil.rmtree(base, ignore_errors=True)
     out = []
+    ctx = multiprocessing.get_context("fork")
     try:
         for i, (start, calls) in enumerate(SCENARIOS):
-            out.append(run_scenario(start, calls, trials, os.path.join(base, "s%d" % i), fhs))
+            # each scenario in a process of its own, under a time limit: whatever a changed
+            # code base does to the Manager, the check itself must come back
+            rd, wr = ctx.Pipe(duplex=False)
+
+            def job(i=i, start=start, calls=calls):
+                os.setpgid(0, 0)
+                try:
+                    wr.send(run_scenario(start, calls, trials, os.path.join(base, "s%d" % i), fhs))
+                except BaseException as e:  # noqa
+                    wr.send({"error": "%s: %s" % (type(e).__name__, e)})
+                os._exit(0)
+            p = ctx.Process(target=job)
+            p.start()
+            limit = 60 + 6 * trials
+            res = rd.recv() if rd.poll(limit) else {"error": "no result within %d s" % limit}
+            try:
+                os.killpg(p.pid, 9)
+            except OSError:
+                pass
+            p.join(10)
+            if "error" in res:
+                threads = {"t%d" % (k + 1): c for k, c in enumerate(calls)}
+                res = {"scenario": {"name": "C16real/%s/%s" % (start, "|".join(cstr(c) for c in calls)),
+                                    "setup": OBJ_STARTS[start], "threads": threads, "mode": "mp-real"},
+                       "family": "C07", "start_abs": None, "outcomes": [], "states": [], "runs": 0,
+                       "steps": 0, "visited": 0, "exhaustive": False, "nondet": 0, "wall": limit,
+                       "inst": OBJ_INST, "harness_error": res["error"]}
+            out.append(res)
     finally:
         shutil.rmtree(base, ignore_errors=True)
     return out
